@@ -364,6 +364,12 @@ func init() {
 				l := fmt.Sprintf("%s.s%d", lab, i)
 				n.F = append(n.F, gen.F(g.t, mn[0]-0.2, mx[0]+0.2, l+".x"), gen.F(g.t, mn[1]-0.2, mx[1]+0.2, l+".y"), gen.LogF(g.t, 0.05, 1.5, l+".r"))
 			}
+			// cells written one by one afterwards, P[2:] = (x, y, height): with SetHeightSquaredAt, the last one
+			// straight into the exported Data slice
+			for i, k := 0, rapid.IntRange(0, 3).Draw(g.t, lab+".nset"); i < k; i++ {
+				l := fmt.Sprintf("%s.set%d", lab, i)
+				n.P = append(n.P, kit.V3{gen.F(g.t, mn[0], mx[0], l+".x"), gen.F(g.t, mn[1], mx[1], l+".y"), gen.LogF(g.t, 0.05, 3, l+".h")})
+			}
 			return n
 		},
 		build: func(b *built) {
@@ -372,6 +378,14 @@ func init() {
 			for i := 0; i+2 < len(b.n.F); i += 3 {
 				hm.AddSphere(model2d.XY(b.n.F[i], b.n.F[i+1]), b.n.F[i+2])
 				b.addWit(kit.V3{b.n.F[i], b.n.F[i+1], b.n.F[i+2]}, kit.V3{b.n.F[i], b.n.F[i+1], 0}, kit.V3{b.n.F[i], b.n.F[i+1], -b.n.F[i+2]})
+			}
+			for i, q := range b.n.P[2:] {
+				if i == 2 {
+					hm.Data[int(q[0]*1e6+q[1]*1e3+1e9)%len(hm.Data)] = q[2] * q[2]
+				} else {
+					hm.SetHeightSquaredAt(model2d.XY(q[0], q[1]), q[2]*q[2])
+				}
+				b.addWit(q, kit.V3{q[0], q[1], q[2] * 0.9})
 			}
 			bidir := b.n.I[1] == 1
 			if bidir {
